@@ -13,11 +13,12 @@
 EXTENDS Integers, Sequences, FiniteSets, TLC
 
 CONSTANTS K, MaxFaults
-Formats == {"pdf-classic", "pdf-stream", "pdf-png", "pdf-tiff", "docx", "odt", "xlsx", "pptx", "epub", "html"}
+Formats == {"pdf-classic", "pdf-stream", "pdf-png", "pdf-tiff", "pdf-ttf", "docx", "odt", "xlsx", "pptx", "epub", "html"}
 IsZip(f) == f \in {"docx", "odt", "xlsx", "pptx", "epub"}
-IsPdf(f) == f \in {"pdf-classic", "pdf-stream", "pdf-png", "pdf-tiff"}
+IsPdf(f) == f \in {"pdf-classic", "pdf-stream", "pdf-png", "pdf-tiff", "pdf-ttf"}
 \* documents with object streams and cross-reference streams: numeric fields also sit inside encoded streams
-HasInStream(f) == f \in {"pdf-stream", "pdf-png"}
+\* ... and the binary fields of an embedded TrueType program
+HasInStream(f) == f \in {"pdf-stream", "pdf-png", "pdf-ttf"}
 Numbers == {"0", "-1", "2147483648", "9223372036854775807"}
 Targets == {"self", "ancestor", "missing"}
 
